@@ -174,8 +174,62 @@ impl<'a> Rewriter<'a> {
         }})
     }
 
+    /// R19: `IntoIterator::into_iter(A).zip(B.iter_mut()).try_for_each(|(PA, y)| BODY)` over two arrays of the same
+    /// length ⇒ index loop; `*y` in BODY is the place `B[vx_i]`
+    fn r19_zip_iter_mut(&mut self, e: &ExprMethodCall) -> Option<Expr> {
+        let c = single_closure_arg(e)?;
+        let zip = match &*e.receiver { Expr::MethodCall(z) if z.method == "zip" && z.args.len() == 1 => z, _ => return None };
+        let a = match &*zip.receiver {
+            Expr::Call(call) if call.args.len() == 1 && call.func.to_token_stream().to_string().replace(' ', "") == "IntoIterator::into_iter" => call.args[0].clone(),
+            _ => return None,
+        };
+        let b = match &zip.args[0] { Expr::MethodCall(im) if im.method == "iter_mut" && im.args.is_empty() => (*im.receiver).clone(), _ => return None };
+        let (pa, y) = match strip_pat_type(&c.inputs[0]) {
+            Pat::Tuple(t) if t.elems.len() == 2 => match &t.elems[1] { Pat::Ident(pi) => (t.elems[0].clone(), pi.ident.clone()), _ => return None },
+            _ => return None,
+        };
+        let n = self.fresh();
+        let res = format_ident!("vx_resR{}", n);
+        let mut body = closure_body_expr(c);
+        struct DerefY<'b> { y: &'b Ident, b: &'b Expr }
+        impl<'b> VisitMut for DerefY<'b> {
+            fn visit_expr_mut(&mut self, e: &mut Expr) {
+                if let Expr::Unary(u) = e {
+                    if matches!(u.op, UnOp::Deref(_)) {
+                        if let Expr::Path(p) = &*u.expr {
+                            if p.path.get_ident() == Some(self.y) {
+                                let b = self.b;
+                                *e = parse_quote! { #b[vx_i] };
+                                return;
+                            }
+                        }
+                    }
+                }
+                visit_mut::visit_expr_mut(self, e);
+            }
+        }
+        DerefY { y: &y, b: &b }.visit_expr_mut(&mut body);
+        self.fired.push("R19-zip-iter_mut-index-loop".into());
+        Some(parse_quote! {{
+            let mut #res = Ok(());
+            let mut vx_i: usize = 0;
+            while vx_i < #a.len() {
+                let #pa = #a[vx_i];
+                match #body {
+                    Ok(()) => {}
+                    Err(vx_e) => { #res = Err(vx_e); break; }
+                }
+                vx_i += 1;
+            }
+            #res
+        }})
+    }
+
     /// R1: `E.try_for_each(|P| B)`; `?` inside B exits the loop with the error.
     fn r1_try_for_each(&mut self, e: &ExprMethodCall) -> Option<Expr> {
+        if let Some(r) = self.r19_zip_iter_mut(e) {
+            return Some(r);
+        }
         let c = single_closure_arg(e)?;
         if c.inputs.len() != 1 {
             return None;
@@ -350,6 +404,9 @@ impl<'a> Rewriter<'a> {
             }),
             ("map", "option") => Some(parse_quote! {
                 match #recv { Some(#pat) => Some(#body), None => None }
+            }),
+            ("map", "result") => Some(parse_quote! {
+                match #recv { Ok(#pat) => Ok(#body), Err(vx_e) => Err(vx_e) }
             }),
             ("inspect", "option") => {
                 // `|&x| B` on an Option<T: Copy>: bind x by value
